@@ -135,7 +135,8 @@ def install_parse(reg):
     NT = "namedtuple:proxy_headers.Forwarded"
     reg.add_class(ClassSpec(NT, fields={"by": Str1, "for_": Str1, "host": Str1, "proto": Str1}))
     reg.add(FuncContract("utilities.undquote", params={"value": Str1}, returns=Str1, raises=["ValueError"],
-        ensures=[("unquoted-value-passes-through", "implies(not value.startswith('\"') and not value.endswith('\"'), result == value)")],
+        ensures=[("unquoted-value-passes-through", "implies(not value.startswith('\"') and not value.endswith('\"'), result == value)"),
+                 ("C16-half-quoted-value-is-refused", "value.startswith('\"') == value.endswith('\"')")],
         ensures_exc=[("raises-only-for-values-touching-a-quote", "value.startswith('\"') or value.endswith('\"')")]))
     reg.inline.add(PH + ".strip_brackets")
     reg.inline.add(PH + ".parse_proxy_headers.<raise_for_multiple_values>")
